@@ -12,7 +12,7 @@ L_Leaves == <<
   TenI(<<K>>, <<>>, 3, <<2, 0>>),
   TenI(<<I>>, <<>>, 2, <<1, 0>>),
   V("j", BintD(3)),
-  N(1, 2) >>
+  N(1, 2), N(2, 3) >>
 L_UnOps == <<
   Red1("sum", NoAxis, 0), Red1("sum", 0, 0), Red1("sum", -1, 1), Red1("sum", 1, 0),
   Red1("prod", -1, 0), Red1("amax", 0, 0), Red1("amin", -1, 1), Red1("amax", NoAxis, 1),
